@@ -440,6 +440,10 @@ candidateは、それぞれ `(:id id :candidate-id candidate-id :candidate value
     ("xtu" . "っ")
     ("xtsu" . "っ")
     ("xwa" . "ゎ")
+    ("xka" . "ゕ")
+    ("xke" . "ゖ")
+    ("vu" . "ゔ")
+    ("Vu" . "ゔ")
     )
   "chokanで利用するローマ字変換表。但し、歴史的事情であったり入力負荷が高いような綴りについては、
 広く利用されている形式も利用できるようにしている。
